@@ -148,8 +148,8 @@ PROPS = {
     "C14": dict(
         harness="h_life", sources=LIFE, level="exploration", exhaustive=True,
         variants=dict(quick=[V("asan", 8), V("opt", 4)], thorough=[V("asan", 8), V("opt", 4), V("align", 4)]),
-        rule="exhaustive over the stated window: 45 binary entry points (4 sum and 2 difference overloads, scalar product both ways, both commutators, 4+4 element-wise overloads, += / -= "
-             "with vectors and with every proxy kind, 9 expressions whose operands are expressions, Evolve by an operator in four statement forms, Rotate(matrix)) x all 20 ordered pairs d1!=d2 x {library owned, externally backed on "
+        rule="exhaustive over the stated window: 52 binary entry points (4 sum and 2 difference overloads, scalar product both ways, both commutators, 4+4 element-wise overloads, += / -= "
+             "with vectors and with every proxy kind, the same under guarantee<NoAlias> (which does not assert equal sizes), 9 expressions whose operands are expressions, Evolve by an operator in four statement forms, Rotate(matrix)) x all 20 ordered pairs d1!=d2 x {library owned, externally backed on "
              "exact-size heap blocks}; constructors/factories with dimension 1,7,8; factory indices d..d*d+2; list lengths 1..64 except supported squares; all n1 x n2 matrices up to 7x7 "
              "except supported squares; size-changing assignments to externally backed targets. Each must throw, operands bitwise unchanged, ASan silent. distinct_nontrivial = distinct cells.",
         floors=dict(quick={"ctor_groups": 9, "storage.external": 850, "storage.owned": 850}, thorough={"ctor_groups": 9}),
@@ -199,11 +199,12 @@ PROPS = {
              "operations per thread and every triple with up to 2: depth-first enumeration of the schedules at hook granularity (every atomic load/CAS, the payload write and the payload read) with "
              "at most 2 pre-emptions for three threads, 3 for two threads and 4 for the longest two-thread programs on small empty caches (thorough: one more each, searches cut short after 4000 "
              "executions per configuration and counted as cut short; quick exhausts every configuration within its bound); values are unique ids, judged by conservation over the client-side history plus the final drain. Plus random longer programs under PCT schedules and "
-             "8-thread real-thread stress runs with random yields at the hooks. Both variants: all insert/fetch sequences up to length 12 (14) for capacity 1..4 against a bounded LIFO model. "
+             "8-thread real-thread stress runs with random yields at the hooks; plus 24 (96) head-recurrence hunts: a victim stalled right before the compare-and-swap of its pop, two adaptive helpers that bring the same "
+             "record back on top with another successor and then cycle fetch+insert up to 70000 (140000) times watching (hook) for the victim's head word {version,index} to recur - if it does the victim is resumed and the history judged. Both variants: all insert/fetch sequences up to length 12 (14) for capacity 1..4 against a bounded LIFO model. "
              "distinct_nontrivial = distinct configurations; distinct schedules and final configurations are reported as counters.",
-        floors=dict(quick={"executions.enumerated": 200000, "distinct_schedules": 100000, "sequential.shared": 30000, "sequential.thread_local": 30000, "executions.pct": 5000, "operations.stress": 5000000, "configs.exhausted_within_bound": 800},
+        floors=dict(quick={"executions.enumerated": 200000, "distinct_schedules": 100000, "sequential.shared": 30000, "sequential.thread_local": 30000, "executions.pct": 5000, "operations.stress": 5000000, "configs.exhausted_within_bound": 800, "hunt.same_record_on_top_with_another_successor": 12},
                     thorough={"executions.enumerated": 3000000}),
-        assumptions=["schedules are enumerated at hook granularity on x86-TSO; weaker-memory reorderings are not explored", "data races in the C++ memory-model sense on the `next` fields are not judged (the algorithm validates optimistic reads by CAS)"],
+        assumptions=["schedules are enumerated at hook granularity on x86-TSO; weaker-memory reorderings are not explored", "a recurrence of the 32-bit version during one stall (2^32 list updates) is beyond any run and is not judged; the hunt covers version fields up to 17 bits", "data races in the C++ memory-model sense on the `next` fields are not judged (the algorithm validates optimistic reads by CAS)"],
     ),
     "C18": dict(
         harness="h_threads", sources=["threads/main.cpp", "common/ledger.cpp"], level="exploration",
